@@ -591,6 +591,13 @@ func (req *Request) getDistributedResponse(ctx context.Context) (*Response, erro
 		}
 	}
 
+	// if all backends are down, send an error instead of an empty result (as NewResponse does)
+	if req.OutputFormat != OutputFormatWrappedJSON && len(res.failed) > 0 && len(res.failed) == len(req.Backends) {
+		res.code = 502
+
+		return res, &PeerError{msg: res.failed[req.Backends[0]], kind: ConnectionError}
+	}
+
 	// Process results
 	// This also applies sort/offset/limit settings
 	if len(res.request.Stats) > 0 {
